@@ -21,6 +21,24 @@ def main(argv=None) -> int:
         return runner.cmd_replay(a.arg or a.replay)
     if a.what == "digest":
         return runner.cmd_digest(a.arg, a.tier, [int(x) for x in a.seeds.split(",")])
+    if a.what == "mkreplay":
+        # ./run mkreplay C02 --seeds <run_seed> --replay "<rule>|<key>|<outfile>"  (development helper)
+        import shutil
+        rule, key, out = a.replay.split("|")
+        mod = runner.load_prop(a.arg)
+        s0 = int(a.seeds)
+        for s in range(s0, s0 + 5000):
+            plan = mod.gen_plan(s, a.tier)
+            res = runner._execute(mod, plan)
+            v = next((v for v in res["violations"] if (v["rule"], v["key"]) == (rule, key)), None)
+            if v:
+                mplan, before, after = runner.minimise(mod, plan, (rule, key), budget_s=60)
+                path = runner.write_replay(a.arg, mod, s, mplan, v, True, before, after)
+                shutil.move(path, out)
+                print("written", out, "ops", before, "->", after)
+                return 0
+        print("no run with that signature found")
+        return 3
     if a.what == "selftest":
         from . import selftest
         return selftest.main(a.tier)
